@@ -5,7 +5,8 @@ from ..report import Report
 SB = "markdown_it.rules_block.state_block.StateBlock."
 FUNCS = [SB + "__init__"] + [SB + m for m in ("skipSpaces", "skipCharsStr", "skipSpacesBack", "skipCharsStrBack", "skipEmptyLines")] + [
     "markdown_it.rules_block.hr.hr", "markdown_it.rules_block.heading.heading", "markdown_it.rules_block.lheading.lheading", "markdown_it.rules_block.fence.fence", "markdown_it.rules_block.code.code",
-    "markdown_it.rules_block.html_block.html_block", "markdown_it.rules_block.paragraph.paragraph"]
+    "markdown_it.rules_block.html_block.html_block", "markdown_it.rules_block.paragraph.paragraph",
+    "markdown_it.rules_block.list.skipOrderedListMarker", "markdown_it.rules_block.list.skipBulletListMarker"]
 
 
 def run(tier, seed):
@@ -14,6 +15,7 @@ def run(tier, seed):
     deductive(rep, "C01", ["markdown_it.parser_block.ParserBlock.tokenize"], "contracts.block", select=lambda q, ob, rel: True)
     deductive(rep, "C01", ["markdown_it.rules_inline.escape.escape", "markdown_it.parser_inline.ParserInline.tokenize", "markdown_it.parser_inline.ParserInline.skipToken"], "contracts.inline",
               select=lambda q, ob, rel: rel or ob.kind in ("SAFE", "DEC", "INV-init", "INV-pres", "PRE", "COVER", "GUARD"))
+    deductive(rep, "C01", ["markdown_it.helpers.parse_link_title.parseLinkTitle"], "contracts.helpers", select=lambda q, ob, rel: True)
     cfgs = ["commonmark", "js-default", "zero", "cm-heading", "cm+table+strike", "cm-maxnest1", "cm+typo", "cm-code", "cm+defs"]
     lines_universe(rep, "vf.checks:no_exception", tier, "MarkdownIt.parse/render/parseInline/renderInline", "no exception, no hang (2 s per document)",
                    cfgs=cfgs if tier == "quick" else ALL_CFGS, exception_is_failure=True, timeout_is_failure=True, rule="distinct top-level token type sequences")
